@@ -37,6 +37,11 @@ for d in /verif/seeded/C*/ /verif/seeded/own-*/; do
   if grep -q profile_note $d/meta.json 2>/dev/null; then
     (cd $mx/mc && cargo build --profile nodebug --offline > $mx/build-nd.log 2>&1) && nd=1
   fi
+  # C18 compares its operations between the two builds (run.sh does the same)
+  if echo " $ids " | grep -q " C18 "; then
+    [ -n "$nd" ] || (cd $mx/mc && cargo build --profile nodebug --offline > $mx/build-nd.log 2>&1)
+    export BPPMC_OTHER_BUILD=$mx/target/nodebug/bppmc
+  fi
   for id in $ids; do
     $mx/target/release/bppmc check $id --tier quick > $mx/last.log 2>&1; code=$?
     if [ -n "$nd" ] && [ $code -eq 0 ] && echo " C02 C04 C05 C06 C07 C08 C09 C10 C11 C12 C13 C14 C15 C16 C17 C19 C20 " | grep -q " $id "; then
